@@ -97,6 +97,37 @@ def answer (toks : List String) : String :=
       | .error .valueError => "raise:ValueError"
       | .error .ioError => "raise:OSError"
       | .ok M => showBoolMat M
+  -- round 3: exact float32 values of the rates
+  | ["ecaf32", ts1, bx, ts2, by_, tm, lag] =>
+      match ecaSeries (rats ts1) (bools bx) (rats ts2) (bools by_) (ratD tm) (ratD lag) with
+      | none => "raise"
+      | some o =>
+        let o := o.f32
+        join [showRate o.prec12, showRate o.trig12, showRate o.prec21, showRate o.trig21]
+  | ["ecaratef32", w, ts1, bx, ts2, by_, tm, lag] =>
+      match window? w with
+      | none => "bad-request"
+      | some w =>
+        match ecaRateSeries w (rats ts1) (bools bx) (rats ts2) (bools by_) (ratD tm) (ratD lag) with
+        | none => "raise"
+        | some (a, b) => join [showRate (rateF32 a), showRate (rateF32 b)]
+  | ["ecamatf32", w, ts, e, n, tm, lag, s] =>
+      match window? w, symm? s with
+      | some w, some s =>
+        match ecaAnalysisF32 w (rats ts) (boolMat e) n.toNat! (ratD tm) (ratD lag) s with
+        | none => "raise"
+        | some M => showMat showOptRat M
+      | _, _ => "bad-request"
+  -- round 3: a history of ES requests on one object; every returned array is read at the
+  -- END of the history (helper table `stdHelper`; `gen_symm_table` ties it to the source)
+  | ["eshist", ts, e, n, tm, lag, hist] =>
+      let n := n.toNat!
+      let reqs := (splitTok hist ",").filterMap symm?
+      let compute := esMatrix (rats ts) (boolMat e) n (optRat tm) (ratD lag)
+      let r := runHistory compute (esApply n) stdHelper ⟨[], none⟩ reqs
+      join (r.2.map fun a => match r.1.heap[a]? with
+        | some M => showMat showESEntry M
+        | none => "unallocated") "|"
   | _ => "bad-request"
 
 def main : IO Unit := runDriver answer
